@@ -62,6 +62,16 @@ Definition node_step_asis (me : N) (s : store) (st : nstep) : store * bool :=
   | _ => node_step me s st
   end.
 
+(** A pipeline that drops the prune request only when the operation could not be authenticated
+    ([validate_operation] failed) and keeps it for every other ingest failure -- the seeded change
+    C04-1 as far as the model can express it ([o_valid] lumps signature, encoding and payload
+    errors together, so here "every other failure" = the log-integrity errors).  Regression
+    witness only. *)
+Definition deliver_prune_unless_invalid (s : store) (o : op) : store * res :=
+  let '(s1, r) := ingest s o in
+  (if (match r with Rejected EInvalid => false | _ => true end) && o_prune o
+   then prune_below s1 (o_author o) (o_log o) (o_seq o) else s1, r).
+
 Fixpoint node_trace (me : N) (s : store) (sts : list nstep) : list (bool * store) :=
   match sts with
   | [] => []
